@@ -8,6 +8,7 @@
   auto_benign.py hoist-returns    `return <expr>` -> `tmp = <expr>; return tmp` for call / comparison / boolean / arithmetic results
   auto_benign.py sort-keywords    keyword arguments of every call in alphabetical order
   auto_benign.py alias-imports    `import os` -> `import os as os_`, `from .m import f` -> `... import f as f_` (uses renamed), except in __init__.py
+  auto_benign.py hoist-receivers  `a.b.c(x)` statements -> `r = a.b; r.c(x)`
   auto_benign.py all              every mode in turn
   auto_benign.py swap-compare     write `a == b` with constant/None left operand the other way round where the operator is
                                   symmetric (==, !=, is, is not)
